@@ -1484,6 +1484,27 @@ func (a allocator) allocated(v any) bool {
 	return ok
 }
 
+// Forgets the allocated addresses in the value. A value handed to a query must
+// not be updated in place anymore because the query can retain references to it.
+func (a allocator) release(v any) {
+	switch v := v.(type) {
+	case map[string]any:
+		if a.allocated(v) {
+			delete(a, reflect.ValueOf(v).Pointer())
+			for _, w := range v {
+				a.release(w)
+			}
+		}
+	case []any:
+		if a.allocated(v) {
+			delete(a, reflect.ValueOf(v).Pointer())
+			for _, w := range v {
+				a.release(w)
+			}
+		}
+	}
+}
+
 func (a allocator) makeObject(l int) map[string]any {
 	v := make(map[string]any, l)
 	if a != nil {
@@ -1520,6 +1541,25 @@ func setpath(v, p, n any, a allocator) any {
 		return &func2WrapError{"setpath", v, p, n, err}
 	}
 	return u
+}
+
+// Used in compiler#compileModify. The result is passed to the update query,
+// so it should not share any array or object with the allocator.
+func funcGetpathWithAllocator(v any, args []any) any {
+	x, a := funcGetpath(v, args[0]), args[1].(allocator)
+	if xs, ok := x.([]any); ok {
+		if path := args[0].([]any); len(path) > 0 {
+			if _, ok := path[len(path)-1].(map[string]any); ok {
+				// A slice shares the elements with the sliced array.
+				for _, w := range xs {
+					a.release(w)
+				}
+				return slices.Clone(xs)
+			}
+		}
+	}
+	a.release(x)
+	return x
 }
 
 func funcDelpaths(v, p any) any {
